@@ -7,7 +7,7 @@ T4 = ["Keepalive"]
 PROOF_MODULES = ["GrpcProofs.Properties.C15"]
 THEOREMS = ["GrpcProofs.C15." + t for t in (
     "dead_peer_closed_by_partial", "dead_peer_closed_by", "dead_peer_closed_by_permit", "dead_peer_closed_by_counterexample",
-    "time_can_pass", "adv_is_valid_run", "closed_only_after_silence", "healthy_never_closed",
+    "dormant_with_streams_has_pending_wake", "every_initStream_wakes", "time_can_pass", "adv_is_valid_run", "closed_only_after_silence", "healthy_never_closed",
     "server_loop_eq", "server_dead_peer_closed_by", "server_healthy_never_closed",
     "no_goaway_if_spaced", "strikes_accumulate", "third_strike_goaway", "strikes_reset_by_server_write")]
 DESIGN_REF = "DESIGN.md section 8, C15"
@@ -24,7 +24,10 @@ LEVEL_TEXT = ("Machine-checked Lean proofs, for every Time/Timeout/MinTime >= 1 
               "later otherwise (the literal bound is refuted on a concrete timeline = finding F20); spaced pings never strike; the "
               "third unforgiven too-early ping sends GOAWAY; a server write forgives. The automata are diffed, under virtual time "
               "at exact boundaries, against the real http2Client/http2Server on every run.")
-LEVEL_NOTE = ("PARTIAL. Readings: (1) 'applicable' = stream open or PermitWithoutStream; the bound is checked on the virtual clock "
+LEVEL_NOTE = ("PARTIAL. The wake-up from dormancy is modelled as its two cooperating sites (regS: NewStream registers the stream in "
+              "activeStreams; initS: loopy later runs initStream, which signals a dormant loop); the dead-peer bound is stated for "
+              "states in which loopy has caught up (pendingInit = 0) and the invariant proves that a dormant loop with streams always "
+              "has an initStream pending, each of which wakes it. Readings: (1) 'applicable' = stream open or PermitWithoutStream; the bound is checked on the virtual clock "
               "at op granularity (the close instant itself is exact). (2) 'healthy' is monitored locally: never closed at an instant "
               "t <= lastRead+Time (the theorem gives the stronger lastRead+Time+Timeout <= t). (3) A too-early ping that follows "
               "server-sent headers/data/trailers is forgiven and restarts the strike run (code: CAS on resetPingStrikes), so after "
@@ -41,8 +44,10 @@ ASSUMPTIONS = ["Time, Timeout, MinTime >= 1 ns (0 is replaced by defaults before
                "MaxConnectionIdle / MaxConnectionAge left at infinity; no channelz; StaticWindowSize (no BDP pings)",
                "a timer expiry, the loop body and the reader's lastRead store are atomic w.r.t. each other at one virtual instant (quiescent-step tie T2)"]
 RULE = ("client: directed timelines at Time, Time+Timeout, +-1 ns, reads exactly at ping/timeout instants, dormancy with streams "
-        "opening before/at/after the expiry, frames read while dormant (late wake) for 6 parameter pairs x PermitWithoutStream, plus "
-        "random timelines (adv biased to boundaries, read ack/ping/settings/window-update, open, done); server: pings spaced exactly "
+        "opening before/at/after the expiry, frames read while dormant (late wake), bursts of 1-3 streams registered back to back "
+        "while the loopy writer is held busy (from dormancy, just before it, with a ping outstanding) for 6 parameter pairs x "
+        "PermitWithoutStream, plus "
+        "random timelines (adv biased to boundaries, read ack/ping/settings/window-update, open, burst k, done); server: pings spaced exactly "
         "MinTime / 2h and 1 ns short, strikes interleaved with hdr/data/fin/rst, stream close switching to the 2-hour rule, keepalive "
         "boundaries, plus random timelines. A case is non-trivial if the real transport emitted a keepalive ping, closed, or sent a "
         "GOAWAY; distinct = distinct op sequence.")
@@ -85,9 +90,13 @@ def client_random(rng, n):
             ops.append("adv %d" % deltas(rng, t, to))
         elif r < 0.65:
             ops.append("read " + rng.choice(["ack", "ack", "ping", "settings", "wupd"]))
-        elif r < 0.82:
+        elif r < 0.76:
             ops.append("open")
             ns += 1
+        elif r < 0.82:
+            k = rng.choice([1, 2, 2, 3, 5])
+            ops.append("burst %d" % k)
+            ns += k
         elif r < 0.97 and ns > 0:
             ops.append("done")
             ns -= 1
@@ -132,6 +141,15 @@ def client_directed(rng):
             yield [st, "adv %d" % (2 * t), "read ping", "adv %d" % max(gap, 0), "open", "adv %d" % to, "adv %d" % min(t, to), "adv %d" % to, "adv %d" % (t + to)]
         yield [st, "adv %d" % (2 * t), "read ping", "adv %d" % (3 * t), "open", "adv %d" % (to - 1) if to > 1 else "adv 0", "read ack", "adv %d" % (t + to), "adv 1"]
         yield [st, "adv %d" % (2 * t), "read ping", "adv %d" % (3 * t), "open", "adv %d" % (to + min(t, to) - 1), "adv 1", "adv %d" % to]
+        # bursts: k streams registered back to back while the loopy writer is busy (their initStream callbacks run
+        # later, with all k already in activeStreams) - from dormancy, before dormancy, with a ping outstanding
+        for k in (1, 2, 3):
+            yield [st, "adv %d" % (3 * t), "burst %d" % k, "adv %d" % (t + to - 1), "adv 1", "adv %d" % (t + to)]
+            yield [st, "adv %d" % (t - 1), "burst %d" % k, "adv 1", "adv %d" % to, "adv %d" % t]
+            yield [st, "open", "adv %d" % t, "done", "adv %d" % (t + to), "burst %d" % k, "adv %d" % (2 * (t + to))]
+            yield [st, "adv %d" % (2 * t), "burst %d" % k] + ["done"] * k + ["adv %d" % (t + to), "burst %d" % k, "done", "adv %d" % (2 * (t + to))]
+        yield [st, "open", "adv %d" % t, "burst 2", "adv %d" % (to - 1) if to > 1 else "adv 0", "adv 1", "adv %d" % (t + to)]
+    yield ["burst 2", "start 5 5 0", "burst 0", "burst 9", "burst x", "burst 02", "adv 20", "burst 2", "adv 9", "adv 1", "adv 1"]
     yield ["adv 5", "open", "start 0 5 1", "start 5 0 1", "start 5 5 2", "start 5 5 1", "start 5 5 1", "read bogus", "done", "adv 4", "adv 1", "adv 5"]
 
 
